@@ -141,18 +141,18 @@ def r3_single_resolution_rule(ctx):
             ctx.fail(f.qual + "#key-rewritten", f"the key is rewritten before resolution: {norm(s_)[:70]}", where=f, node=s_)
     rets = [r for r in returns_of(has) if r.value is not None]
     # has: True only from `att in obj` (dict) or hasattr(obj, att)
-    fd = local_defs(has, "found")
-    okh = any(val is not None and norm(val) == "hasattr(obj, att)" for _, val in fd)
-    ctx.check(okh, has.qual + "#hasattr", "existence = hasattr(obj, att)" if okh else "has() no longer tests hasattr(obj, att)", where=has, node=fd[0][0] if fd else has.node)
-    for _, val in fd:
-        if isinstance(val, ast.Constant) and val.value is True:
-            s_ = [x for x, v in fd if v is val][0]
-            ts = enclosing_tests(s_)
-            from sa.index import ancestors
+    from sa.astutil import result_sites
+    from sa.index import ancestors
 
+    fd = result_sites(has)
+    okh = any(norm(val) == "hasattr(obj, att)" for _, val in fd)
+    ctx.check(okh, has.qual + "#hasattr", "existence = hasattr(obj, att)" if okh else "has() no longer tests hasattr(obj, att)", where=has, node=fd[0][0] if fd else has.node)
+    for s_, val in fd:
+        if isinstance(val, ast.Constant) and val.value is True:
             in_handler = [a for a in ancestors(s_) if isinstance(a, ast.ExceptHandler)]
-            okv = bool(in_handler) and norm(in_handler[0].type) == "ValueError"
-            ctx.check(okv, has.qual + "#true-default", "True only when hasattr itself raised ValueError (uninitialised bucket)" if okv else "has() answers True without looking", where=has, node=s_)
+            okv = bool(in_handler) and in_handler[0].type is not None and norm(in_handler[0].type) == "ValueError"
+            okv = okv or any(pol and ("att in obj" in norm(t) or "att in obj" in norm(expand(has, t, _seen={"att", "obj"}))) for t, pol in enclosing_tests(s_))
+            ctx.check(okv, has.qual + "#true-default", "True only for a dict entry or when hasattr itself raised ValueError (uninitialised bucket)" if okv else "has() answers True without looking", where=has, node=s_)
     g = ctx.func(GOA)
     # split: *body, tail = key.split(".")
     sp = [s_ for s_ in walk_ordered(g.node) if isinstance(s_, ast.Assign) and isinstance(s_.targets[0], ast.Tuple) and norm(s_.value) == "key.split('.')"]
@@ -341,7 +341,7 @@ def r7_literal_conversion(ctx):
     for s_ in quotes:
         hs = [a for a in _anc(s_) if isinstance(a, ast.ExceptHandler)]
         inh = bool(hs) and hs[0].type is not None and {"SyntaxError", "ValueError"} <= set(norm(hs[0].type).strip("()").replace(" ", "").split(","))
-        guarded = any(pol and any(isinstance(c, ast.Constant) and c.value in ("'", '"') for c in ast.walk(t)) for t, pol in enclosing_tests(s_))
+        guarded = any(any(isinstance(c, ast.Constant) and c.value in ("'", '"') for c in ast.walk(expand(f, t))) for t, pol in enclosing_tests(s_))
         val = [val for ss, val in local_defs(f, v) if ss is s_][0]
         shape = norm(val) in (f"'\"' + {v} + '\"'", f'"\'" + {v} + "\'"', f"repr({v})")
         okq = okq and inh and guarded and shape
